@@ -163,11 +163,11 @@ Ltac upd_cases :=
   | H : context [upd _ ?j _ ?k] |- _ =>
       let E := fresh "E" in
       destruct (N.eq_dec k j) as [E|E];
-      [ try subst k; rewrite ?upd_same in H | try (exfalso; apply E; reflexivity); rewrite (upd_other _ _ _ _ E) in H ]
+      [ try subst k; try rewrite E in *; rewrite upd_same in H | try (exfalso; apply E; reflexivity); rewrite (upd_other _ _ _ _ E) in H ]
   | |- context [upd _ ?j _ ?k] =>
       let E := fresh "E" in
       destruct (N.eq_dec k j) as [E|E];
-      [ try subst k; rewrite ?upd_same | try (exfalso; apply E; reflexivity); rewrite (upd_other _ _ _ _ E) ]
+      [ try subst k; try rewrite E in *; rewrite upd_same | try (exfalso; apply E; reflexivity); rewrite (upd_other _ _ _ _ E) ]
   end.
 
 Ltac inv_some :=
